@@ -458,6 +458,7 @@ type roundSpec struct {
 	LateOps []extOp           `json:"lateOps"`  // after the caches are taken, before the sync starts
 	FaultOn []faultOn         `json:"faultOn"`  // faults aimed at a kind of request rather than a position
 	Requeues int              `json:"requeues"` // what the work queue reports as earlier failures of this key
+	StaleRevisions bool       `json:"staleRevisions"` // the ControllerRevision lister still shows what was there before the previous sync
 }
 
 type faultOn struct {
@@ -596,10 +597,21 @@ func runScenario(sc *scenario) (*caseRec, error) {
 	out := &caseRec{Sc: sc}
 	w.freezeViews()
 	var persistent *builtPC
+	var prevRevs []map[string]interface{}
 	for _, r := range sc.Rounds {
 		for _, op := range r.PreOps {
 			w.applyExt(op)
 		}
+		curRevs := w.listRevisions()
+		if curRevs == nil {
+			curRevs = []map[string]interface{}{}
+		}
+		if r.StaleRevisions && prevRevs != nil {
+			w.revView = prevRevs
+		} else {
+			w.revView = nil
+		}
+		prevRevs = curRevs
 		if !r.Stale {
 			w.freezeViews()
 		}
@@ -626,6 +638,8 @@ func runScenario(sc *scenario) (*caseRec, error) {
 		}
 		seen := make([]int, len(r.FaultOn))
 		w.srv.SetBeforeRequest(func(n int, verb, apiVersion, kind, ns, name string) *sim.Fault {
+			// every entry counts the requests it matches (also when another entry fires on the same request)
+			var fire *sim.Fault
 			for fi, fo := range r.FaultOn {
 				if fo.Verb == verb && fo.Kind == kind && (!fo.AfterHook || len(hookTransport.Calls()) > 0) {
 					seen[fi]++
@@ -633,7 +647,7 @@ func runScenario(sc *scenario) (*caseRec, error) {
 						for _, op := range fo.Ops {
 							w.applyExt(op)
 						}
-						if fo.Fault == nil {
+						if fo.Fault == nil || fire != nil {
 							continue
 						}
 						code, _ := fo.Fault["code"].(float64)
@@ -641,9 +655,12 @@ func runScenario(sc *scenario) (*caseRec, error) {
 							code = float64(c2)
 						}
 						reason, _ := fo.Fault["reason"].(string)
-						return &sim.Fault{Code: int(code), Reason: reason}
+						fire = &sim.Fault{Code: int(code), Reason: reason}
 					}
 				}
+			}
+			if fire != nil {
+				return fire
 			}
 			idx := fmt.Sprint(n)
 			for _, op := range r.MidOps[idx] {
